@@ -452,6 +452,15 @@ func qRunBolt(db *bbolt.DB, store boltz.ConfigurableStore, text string) string {
 
 func i64p(v int64) *int64 { return &v }
 
+// qRng decorrelates consecutive seeds (the streams of newRng(k) and newRng(k+1) are the same
+// sequence shifted by one step) by hashing the seed first
+func qRng(seed int64, salt uint64) *rng {
+	z := uint64(seed)*0xD1342543DE82EF95 + salt
+	z = (z ^ (z >> 32)) * 0xDABA0B6EB09322E3
+	z = (z ^ (z >> 29)) * 0x94D049BB133111EB
+	return newRng(int64(z ^ (z >> 32)))
+}
+
 type qPaging struct {
 	skip  *int64
 	limit *int64
@@ -556,7 +565,7 @@ func runC02(o *opts) error {
 		return c02Replay(o, qb, rp, cases, impl)
 	}
 
-	r := newRng(o.seed)
+	r := qRng(o.seed, 0xC02)
 	nData, nSortsPer := 5, 9
 	if o.thorough() {
 		nData, nSortsPer = 80, 10
